@@ -56,6 +56,16 @@ Theorem C45_enr_keys_unique :
 Proof. exact accepted_keys_unique. Qed.
 Print Assumptions C45_enr_keys_unique.
 
+(* the same key twice in a row is never accepted — at any position of the pair
+   list and for any key, the empty key included (the Go loop's first-pair test
+   is `i > 0`, not "previous key non-empty") *)
+Theorem C45_enr_no_adjacent_duplicate :
+  forall (b : list N) (r : record) (ps1 : list (list N * list N)) (k v1 v2 : list N)
+         (ps2 : list (list N * list N)),
+  bytesb b = true -> Enr.decode b = EOk r -> r_pairs r <> ps1 ++ (k, v1) :: (k, v2) :: ps2.
+Proof. exact decode_no_adjacent_dup. Qed.
+Print Assumptions C45_enr_no_adjacent_duplicate.
+
 (* the model's fuel is never exhausted: every rejection is a Go error class *)
 Theorem C45_enr_no_fuel_error :
   forall b : list N, bytesb b = true -> Enr.decode b <> EErr EFuel.
@@ -268,3 +278,8 @@ Print Assumptions C45_v5_rejects_wrong_destination_partial.
    copies of the reply are not accepted *)
 Example C45_nonvacuous : example_ok = true /\ Toy.scenario_ok = true.
 Proof. split; vm_compute; reflexivity. Qed.
+
+(* the empty key: ["", ""] is a duplicate (first, middle, repeated), "" after a
+   larger key is unsorted, a single "" is an ordinary smallest key *)
+Example C45_empty_key_duplicate : empty_key_ok = true.
+Proof. vm_compute. reflexivity. Qed.
